@@ -613,11 +613,13 @@ def check_C18(pid, tier, seed, verdict):
                "step), get_cert_info / get_reload_count / get_last_reload, and a ping over a TLS session established at the start; "
                "expired certificates are concretised as expired for years or for one hour; plus runs of 400 (thorough: 2000) "
                "reloads that overlap replacements of the certificate file by another thread (served leaf vs reported information "
-               "vs expiry after every successful reload); "
+               "vs expiry after every successful reload); plus a prefix sweep: the new certificate file and the new key file "
+               "(PKCS#8 and SEC1) cut at every prefix length up to the inside of the END line (quick: every 12th, offset by the "
+               "seed), each inside a two-file update A -> B with a reload while the file is cut and after it is complete; "
                "non-trivial = histories in which at least one reload was judged", V.sample_descrs(run["descr"]), True,
                dict(behaviours_generated=len(g["scenarios"]), behaviours_replayed=len(scs), trace_events=res["lines"], event_counts=cnt))
-    return cov, ["truncation is concretised at 5 classes of cut positions (header line, early, middle, last byte before END, "
-                 "inside the END line), not at every prefix length", "the file watcher (notify) and its debounce are not exercised: "
+    return cov, ["inside the 4-step TLC histories truncation is concretised at 5 classes of cut positions; every prefix length is "
+                 "covered by the sweep histories only (thorough tier; quick takes one residue class mod 12 per seed)", "the file watcher (notify) and its debounce are not exercised: "
                  "reload() is called directly", "rustls and aws-lc-rs are trusted for signature verification"]
 
 
